@@ -171,3 +171,31 @@ func VerifLifecycleOccurrence(target any, family string) (int, error) {
 	}
 	return 0, fmt.Errorf("VerifLifecycleOccurrence: unsupported target %T / family %q", target, family)
 }
+
+// Dispatch runs one occurrence of `ev` the way the dispatch code does: it ranges over the very
+// slice getAll returned (no copy in between) and hands each handler to `call` from inside the loop,
+// so that registry calls made by a handler happen while the occurrence is still being dispatched.
+func (v *VerifEventStore) Dispatch(ev string, call func(rv reflect.Value)) {
+	for _, h := range v.s.getAll(ev) {
+		call(h.rv)
+	}
+}
+
+// VerifDispatchEvent is Dispatch for the event registry of a *Namespace, server socket or client socket.
+func VerifDispatchEvent(target any, ev string, call func(rv reflect.Value)) error {
+	var store *eventHandlerStore
+	switch t := target.(type) {
+	case *Namespace:
+		store = t.eventHandlers
+	case *serverSocket:
+		store = t.eventHandlers
+	case *clientSocket:
+		store = t.eventHandlers
+	default:
+		return fmt.Errorf("VerifDispatchEvent: unsupported target %T", target)
+	}
+	for _, h := range store.getAll(ev) {
+		call(h.rv)
+	}
+	return nil
+}
